@@ -11,8 +11,14 @@ git -C /repo worktree remove --force $WT 2>/dev/null
 git -C /repo worktree add -q --detach $WT || exit 2
 cd $WT
 # demo location and command from the demo header
-DEMO_DST=$(grep -o "[a-z0-9/_]*zz_demo_test.go" $D/demo_test.go | head -1)
-[ -z "$DEMO_DST" ] && DEMO_DST=$(python3 -c "import json,re;m=json.load(open('$D/meta.json'));print(re.search(r'([a-z0-9/_]*zz_demo_test.go)',m['demo_cmd']).group(1))")
+DEMO_DST=$(grep -o "[a-z0-9/_]*zz_demo[a-z0-9_]*_test.go" $D/demo_test.go | head -1)
+[ -z "$DEMO_DST" ] && DEMO_DST=$(python3 - "$D/meta.json" <<'PYEOF'
+import json,re,sys
+m=json.load(open(sys.argv[1]))
+r=re.search(r"([a-z0-9/_]*zz_demo[a-z0-9_]*_test\.go)",m["demo_cmd"])
+print(r.group(1) if r else "")
+PYEOF
+)
 DEMO_DST=${DEMO_DST#/}
 DEMO_PKG=./$(dirname $DEMO_DST)
 RUNRE=TestDemo
